@@ -93,6 +93,13 @@ fn prepare_project(file_path: &str, output_dir: Option<&str>) -> CliResult<Prepa
     generator.set_needs_axum(needs_axum);
 
     for crate_name in &rust_crates {
+        // Never fall back to a wildcard version: a crate without a known-good version is refused.
+        if ProjectGenerator::known_good_version(crate_name).is_none() {
+            return Err(CliError::failure(format!(
+                "unknown Rust crate `{crate_name}`: no known-good version mapping exists.\n\
+                 To use this crate today, request that `{crate_name}` be added to the known-good list by opening an issue/PR."
+            )));
+        }
         generator.add_rust_crate(crate_name);
     }
 
